@@ -450,6 +450,17 @@ func checkC13(r *Result, rng *rand.Rand, thorough bool) {
 					}
 				}
 			}
+			// declared gid counts beyond the limit, with nothing behind them: refused before any allocation of that size
+			for _, cnt := range []uint32{17, 100, 1 << 16, 1 << 30, 1<<30 + 5, 1 << 31, 0xc0000000, 0xffffffff} {
+				base := encAuthSys(1, []byte("h"), 2, 3, nil)
+				body := append(base[:len(base)-4], u32(cnt)...)
+				add("authsys-count", "rpc authsys "+hx(body))
+				var err error
+				d := allocDelta(func() { _, err = absnfs.ParseAuthSysCredential(body) })
+				if err == nil || d > 65536 {
+					r.violate(Violation{Class: "C13/authsys-gid-limit", What: fmt.Sprintf("AUTH_SYS body declaring %d gids: err=%v allocated=%d bytes", cnt, err, d), Ops: []string{"rpc authsys " + hx(body)}})
+				}
+			}
 		}
 		// ---- replies
 		for st := uint32(0); st <= 1; st++ {
@@ -526,12 +537,39 @@ func checkC13(r *Result, rng *rand.Rand, thorough bool) {
 				d := randBytes(rng, n)
 				in := append(u32(0x80000000|uint32(n)), d...)
 				add("rm-read-limit", fmt.Sprintf("rm read %d %s", m, hx(in)))
+				// the limit bounds the record, however it is fragmented
+				judge := func(in []byte, frags string) {
+					rd := absnfs.NewRecordMarkingReader(bytes.NewReader(in))
+					rd.MaxRecordSize = m
+					got, err := rd.ReadRecord()
+					switch {
+					case n > m && err == nil:
+						r.violate(Violation{Class: "C13/record-limit", What: fmt.Sprintf("a record of %d bytes (%s) was accepted with MaxRecordSize %d", n, frags, m), Ops: []string{fmt.Sprintf("rm read %d %s", m, hx(in))}})
+					case n <= m && (err != nil || !bytes.Equal(got, d)):
+						r.violate(Violation{Class: "C13/record-reassembly", What: fmt.Sprintf("a record of %d bytes (%s) within MaxRecordSize %d was not returned intact (err=%v)", n, frags, m, err), Ops: []string{fmt.Sprintf("rm read %d %s", m, hx(in))}})
+					}
+				}
+				judge(in, "one fragment")
 				// split in two fragments crossing the limit
 				if n >= 2 {
 					in2 := append(u32(uint32(n/2)), d[:n/2]...)
 					in2 = append(in2, u32(0x80000000|uint32(n-n/2))...)
 					in2 = append(in2, d[n/2:]...)
 					add("rm-read-limit", fmt.Sprintf("rm read %d %s", m, hx(in2)))
+					judge(in2, "two fragments")
+				}
+				// one byte per fragment
+				if n >= 3 && n <= 9 {
+					var in3 []byte
+					for k := 0; k < n; k++ {
+						hdr := uint32(1)
+						if k == n-1 {
+							hdr |= 0x80000000
+						}
+						in3 = append(append(in3, u32(hdr)...), d[k])
+					}
+					add("rm-read-limit", fmt.Sprintf("rm read %d %s", m, hx(in3)))
+					judge(in3, fmt.Sprintf("%d one-byte fragments", n))
 				}
 			}
 		}
